@@ -124,6 +124,14 @@ def run_duccio(case, ctx):
             # nothing is claimed about the (sub-)gradient at or below the target
             continue
         ctx.mon('c19.strength_schedule')
+        if g is None:
+            # the penalty of a violated constraint with a positive strength does not reach the
+            # cost it penalises (observed on the first call of this regularizer object)
+            if s > 0:
+                ctx.violation('strength-schedule', dict(detail, sig='no-gradient-to-violated-metric',
+                                                        metric=nm, final=s,
+                                                        value_requires_grad=bool(val.requires_grad)))
+            continue
         es = float(g)
         tol = 2 * ulp32(s)
         if es > s + tol:
